@@ -465,11 +465,12 @@ package crypto
 //@   ghost impl int
 //@   ghost rct slice
 //@   ghost rerr error
-//@   requires key != nil
+// a nil key is reported like any other unusable key (repaired: it used to be a nil dereference); it is the first return
+//@   ensures [C07.encryptpublickey.nilkey] key == nil ==> (err == ErrKeyTypeMismatch && ciphertext == nil)
 //@   modifies nothing
-//@   ensures [C03.dispatch.pkenc.other] !kcAsymEnc(algorithm) ==> (ciphertext == nil && (err == ErrUnsupportedAlgorithm || err == ErrKeyTypeMismatch))
-//@   ensures [C03.dispatch.pkenc.noout] err != nil ==> ciphertext == nil
-//@   ensures [C03.dispatch.pkenc.fresh] ciphertext == nil || fresh(ciphertext)
+//@   ensures [C03.dispatch.pkenc.other] key != nil ==> (!kcAsymEnc(algorithm) ==> (ciphertext == nil && (err == ErrUnsupportedAlgorithm || err == ErrKeyTypeMismatch)))
+//@   ensures [C03.dispatch.pkenc.noout] key != nil ==> (err != nil ==> ciphertext == nil)
+//@   ensures [C03.dispatch.pkenc.fresh] key != nil ==> (ciphertext == nil || fresh(ciphertext))
 //@   at call PublicKey#0 ghost pkerr = res1
 //@   at call encryptPublicKeyRSAPKCS1v15#0 ghost impl = 1
 //@   at call encryptPublicKeyRSAPKCS1v15#0 ghost rct = res0
@@ -480,21 +481,22 @@ package crypto
 //@   at call encryptPublicKeyRSAOAEP ghost rerr = res1
 //@   at call encryptPublicKeyRSAOAEP assert [C03.dispatch.pkenc.onlyoaep] (algorithm == "RSA-OAEP" || algorithm == "RSA-OAEP-256" || algorithm == "RSA-OAEP-384" || algorithm == "RSA-OAEP-512") && arg0 == plaintext && arg3 == associatedData
 //@   at call encryptPublicKeyRSAOAEP assert [C03.dispatch.pkenc.hash] arg2 == ((algorithm == "RSA-OAEP") ? 3 : ((algorithm == "RSA-OAEP-256") ? 5 : ((algorithm == "RSA-OAEP-384") ? 6 : 7)))
-//@   ensures [C03.dispatch.pkenc.keyerr] pkerr != nil ==> (err == ErrKeyTypeMismatch && ciphertext == nil)
-//@   ensures [C03.dispatch.pkenc.unsupported] (pkerr == nil && !kcAsymEnc(algorithm)) ==> (err == ErrUnsupportedAlgorithm && ciphertext == nil)
-//@   ensures [C03.dispatch.pkenc.reach] (pkerr == nil && kcAsymEnc(algorithm)) ==> (impl == ((algorithm == "RSA1_5") ? 1 : 2) && ciphertext == rct && err == rerr)
+//@   ensures [C03.dispatch.pkenc.keyerr] key != nil ==> (pkerr != nil ==> (err == ErrKeyTypeMismatch && ciphertext == nil))
+//@   ensures [C03.dispatch.pkenc.unsupported] key != nil ==> ((pkerr == nil && !kcAsymEnc(algorithm)) ==> (err == ErrUnsupportedAlgorithm && ciphertext == nil))
+//@   ensures [C03.dispatch.pkenc.reach] key != nil ==> ((pkerr == nil && kcAsymEnc(algorithm)) ==> (impl == ((algorithm == "RSA1_5") ? 1 : 2) && ciphertext == rct && err == rerr))
 
 //@ func DecryptPrivateKey
 //@   tags C03 C07 C17
 //@   ghost impl int
 //@   ghost rpt slice
 //@   ghost rerr error
-//@   requires key != nil
+// a nil key is reported like any other unusable key (repaired: it used to be a nil dereference); it is the first return
+//@   ensures [C07.decryptprivatekey.nilkey] key == nil ==> (err == ErrKeyTypeMismatch && plaintext == nil)
 //@   modifies nothing
-//@   ensures [C03.dispatch.pkdec.unsupported] !kcAsymEnc(algorithm) ==> (plaintext == nil && err == ErrUnsupportedAlgorithm)
-//@   ensures [C03.dispatch.pkdec.kind] (kcAsymEnc(algorithm) && key.kty != "RSA") ==> (plaintext == nil && err == ErrKeyTypeMismatch)
-//@   ensures [C03.dispatch.pkdec.noout] err != nil ==> plaintext == nil
-//@   ensures [C03.dispatch.pkdec.fresh] plaintext == nil || fresh(plaintext)
+//@   ensures [C03.dispatch.pkdec.unsupported] key != nil ==> (!kcAsymEnc(algorithm) ==> (plaintext == nil && err == ErrUnsupportedAlgorithm))
+//@   ensures [C03.dispatch.pkdec.kind] key != nil ==> ((kcAsymEnc(algorithm) && key.kty != "RSA") ==> (plaintext == nil && err == ErrKeyTypeMismatch))
+//@   ensures [C03.dispatch.pkdec.noout] key != nil ==> (err != nil ==> plaintext == nil)
+//@   ensures [C03.dispatch.pkdec.fresh] key != nil ==> (plaintext == nil || fresh(plaintext))
 //@   at call decryptPrivateKeyRSAPKCS1v15#0 ghost impl = 1
 //@   at call decryptPrivateKeyRSAPKCS1v15#0 ghost rpt = res0
 //@   at call decryptPrivateKeyRSAPKCS1v15#0 ghost rerr = res1
@@ -504,7 +506,7 @@ package crypto
 //@   at call decryptPrivateKeyRSAOAEP ghost rerr = res1
 //@   at call decryptPrivateKeyRSAOAEP assert [C03.dispatch.pkdec.onlyoaep] (algorithm == "RSA-OAEP" || algorithm == "RSA-OAEP-256" || algorithm == "RSA-OAEP-384" || algorithm == "RSA-OAEP-512") && arg0 == ciphertext && arg1 == key && arg3 == associatedData
 //@   at call decryptPrivateKeyRSAOAEP assert [C03.dispatch.pkdec.hash] arg2 == ((algorithm == "RSA-OAEP") ? 3 : ((algorithm == "RSA-OAEP-256") ? 5 : ((algorithm == "RSA-OAEP-384") ? 6 : 7)))
-//@   ensures [C03.dispatch.pkdec.reach] kcAsymEnc(algorithm) ==> (impl == ((algorithm == "RSA1_5") ? 1 : 2) && plaintext == rpt && err == rerr)
+//@   ensures [C03.dispatch.pkdec.reach] key != nil ==> (kcAsymEnc(algorithm) ==> (impl == ((algorithm == "RSA1_5") ? 1 : 2) && plaintext == rpt && err == rerr))
 
 // ---- asymmetric_sig.go ----
 
@@ -580,14 +582,15 @@ package crypto
 //@   ghost impl int
 //@   ghost rsig slice
 //@   ghost rerr error
-//@   requires key != nil
+// a nil key is reported like any other unusable key (repaired: it used to be a nil dereference); it is the first return
+//@   ensures [C07.signprivatekey.nilkey] key == nil ==> (err == ErrKeyTypeMismatch && signature == nil)
 //@   modifies nothing
-//@   ensures [C03.dispatch.sign.unsupported] !kcSignature(algorithm) ==> (signature == nil && err == ErrUnsupportedAlgorithm)
-//@   ensures [C03.dispatch.sign.kind.rsa] ((kcSigRSA(algorithm) || kcSigPSS(algorithm)) && key.kty != "RSA") ==> (signature == nil && err == ErrKeyTypeMismatch)
-//@   ensures [C03.dispatch.sign.kind.ec] (kcSigEC(algorithm) && key.kty != "EC") ==> (signature == nil && err == ErrKeyTypeMismatch)
-//@   ensures [C03.dispatch.sign.kind.ed] (algorithm == "EdDSA" && (key.kty != "OKP" || key.crv != "Ed25519")) ==> (signature == nil && err == ErrKeyTypeMismatch)
-//@   ensures [C03.dispatch.sign.noout] err != nil ==> signature == nil
-//@   ensures [C03.dispatch.sign.fresh] signature == nil || fresh(signature)
+//@   ensures [C03.dispatch.sign.unsupported] key != nil ==> (!kcSignature(algorithm) ==> (signature == nil && err == ErrUnsupportedAlgorithm))
+//@   ensures [C03.dispatch.sign.kind.rsa] key != nil ==> (((kcSigRSA(algorithm) || kcSigPSS(algorithm)) && key.kty != "RSA") ==> (signature == nil && err == ErrKeyTypeMismatch))
+//@   ensures [C03.dispatch.sign.kind.ec] key != nil ==> ((kcSigEC(algorithm) && key.kty != "EC") ==> (signature == nil && err == ErrKeyTypeMismatch))
+//@   ensures [C03.dispatch.sign.kind.ed] key != nil ==> ((algorithm == "EdDSA" && (key.kty != "OKP" || key.crv != "Ed25519")) ==> (signature == nil && err == ErrKeyTypeMismatch))
+//@   ensures [C03.dispatch.sign.noout] key != nil ==> (err != nil ==> signature == nil)
+//@   ensures [C03.dispatch.sign.fresh] key != nil ==> (signature == nil || fresh(signature))
 //@   at call signPrivateKeyRSAPKCS1v15#0 ghost impl = 1
 //@   at call signPrivateKeyRSAPKCS1v15#0 ghost rsig = res0
 //@   at call signPrivateKeyRSAPKCS1v15#0 ghost rerr = res1
@@ -604,7 +607,7 @@ package crypto
 //@   at call signPrivateKeyEdDSA#0 ghost rsig = res0
 //@   at call signPrivateKeyEdDSA#0 ghost rerr = res1
 //@   at call signPrivateKeyEdDSA#0 assert [C03.dispatch.sign.onlyed] algorithm == "EdDSA" && arg0 == digest && arg1 == key
-//@   ensures [C03.dispatch.sign.reach] kcSignature(algorithm) ==> (impl == (kcSigRSA(algorithm) ? 1 : (kcSigPSS(algorithm) ? 2 : (kcSigEC(algorithm) ? 3 : 4))) && signature == rsig && err == rerr)
+//@   ensures [C03.dispatch.sign.reach] key != nil ==> (kcSignature(algorithm) ==> (impl == (kcSigRSA(algorithm) ? 1 : (kcSigPSS(algorithm) ? 2 : (kcSigEC(algorithm) ? 3 : 4))) && signature == rsig && err == rerr))
 
 //@ func verifyPublicKeyRSAPKCS1v15
 //@   tags C03 C07 C17
@@ -685,10 +688,11 @@ package crypto
 //@   ghost impl int
 //@   ghost rvalid bool
 //@   ghost rerr error
-//@   requires key != nil
+// a nil key is reported like any other unusable key (repaired: it used to be a nil dereference); it is the first return
+//@   ensures [C07.verifypublickey.nilkey] key == nil ==> (err == ErrKeyTypeMismatch && !valid)
 //@   modifies nothing
-//@   ensures [C03.dispatch.verify.other] !kcSignature(algorithm) ==> (!valid && (err == ErrUnsupportedAlgorithm || err == ErrKeyTypeMismatch))
-//@   ensures [C03.dispatch.verify.valid] valid ==> err == nil
+//@   ensures [C03.dispatch.verify.other] key != nil ==> (!kcSignature(algorithm) ==> (!valid && (err == ErrUnsupportedAlgorithm || err == ErrKeyTypeMismatch)))
+//@   ensures [C03.dispatch.verify.valid] key != nil ==> (valid ==> err == nil)
 //@   at call PublicKey#0 ghost pkerr = res1
 //@   at call verifyPublicKeyRSAPKCS1v15#0 ghost impl = 1
 //@   at call verifyPublicKeyRSAPKCS1v15#0 ghost rvalid = res0
@@ -706,9 +710,9 @@ package crypto
 //@   at call verifyPublicKeyEdDSA#0 ghost rvalid = res0
 //@   at call verifyPublicKeyEdDSA#0 ghost rerr = res1
 //@   at call verifyPublicKeyEdDSA#0 assert [C03.dispatch.verify.onlyed] algorithm == "EdDSA" && arg0 == digest && arg1 == signature
-//@   ensures [C03.dispatch.verify.keyerr] pkerr != nil ==> (err == ErrKeyTypeMismatch && !valid)
-//@   ensures [C03.dispatch.verify.unsupported] (pkerr == nil && !kcSignature(algorithm)) ==> (err == ErrUnsupportedAlgorithm && !valid)
-//@   ensures [C03.dispatch.verify.reach] (pkerr == nil && kcSignature(algorithm)) ==> (impl == (kcSigRSA(algorithm) ? 1 : (kcSigPSS(algorithm) ? 2 : (kcSigEC(algorithm) ? 3 : 4))) && valid == rvalid && err == rerr)
+//@   ensures [C03.dispatch.verify.keyerr] key != nil ==> (pkerr != nil ==> (err == ErrKeyTypeMismatch && !valid))
+//@   ensures [C03.dispatch.verify.unsupported] key != nil ==> ((pkerr == nil && !kcSignature(algorithm)) ==> (err == ErrUnsupportedAlgorithm && !valid))
+//@   ensures [C03.dispatch.verify.reach] key != nil ==> ((pkerr == nil && kcSignature(algorithm)) ==> (impl == (kcSigRSA(algorithm) ? 1 : (kcSigPSS(algorithm) ? 2 : (kcSigEC(algorithm) ? 3 : 4))) && valid == rvalid && err == rerr))
 
 // ---- symmetric.go: entry points ----
 // key.kty / key.octets: abstract state of the jwk.Key (libspec crypto_pkg.spec); key.octets is the key's own memory.
@@ -725,23 +729,24 @@ package crypto
 //@   ghost rct slice
 //@   ghost rtag slice
 //@   ghost rerr error
-//@   requires key != nil
+// a nil key is reported like any other unusable key (repaired: it used to be a nil dereference); it is the first return
+//@   ensures [C07.encryptsymmetric.nilkey] key == nil ==> (err == ErrKeyTypeMismatch && ciphertext == nil && tag == nil)
 //@   modifies nothing
-//@   ensures [C03.dispatch.symenc.kind] key.kty != "oct" ==> (err == ErrKeyTypeMismatch && ciphertext == nil && tag == nil)
-//@   ensures [C03.dispatch.symenc.unsupported] (key.kty == "oct" && !kcSymmetric(algorithm)) ==> (err == ErrUnsupportedAlgorithm && ciphertext == nil && tag == nil)
-//@   ensures [C03.dispatch.symenc.noout] err != nil ==> (ciphertext == nil && tag == nil)
-//@   ensures [C03.dispatch.symenc.fresh] (ciphertext == nil || fresh(ciphertext)) && (tag == nil || fresh(tag))
-//@   ensures [C03.dispatch.symenc.reach] (key.kty == "oct" && kcSymmetric(algorithm)) ==> (impl == ((kcCBCPad(algorithm) || kcCBCNoPad(algorithm)) ? 1 : (kcGCM(algorithm) ? 2 : (kcCBCHMAC(algorithm) ? 3 : (kcKW(algorithm) ? 4 : 5)))) && ciphertext == rct && err == rerr)
-//@   ensures [C03.dispatch.symenc.reach.tag] (key.kty == "oct" && (kcGCM(algorithm) || kcCBCHMAC(algorithm) || kcChaCha(algorithm))) ==> tag == rtag
-//@   ensures [C03.symenc.key] (key.kty == "oct" && kcSymmetric(algorithm) && !kcKeyLenOK(algorithm, len(key.octets))) ==> err == ErrKeyTypeMismatch
-//@   ensures [C03.symenc.nonce] (key.kty == "oct" && kcSymmetric(algorithm) && !kcKW(algorithm) && kcKeyLenOK(algorithm, len(key.octets)) && len(nonce) != kcNonceLen(algorithm)) ==> err == ErrInvalidNonce
-//@   ensures [C03.symenc.ptlen] (key.kty == "oct" && kcCBCNoPad(algorithm) && kcKeyLenOK(algorithm, len(key.octets)) && len(nonce) == 16 && len(plaintext) % 16 != 0) ==> err == ErrInvalidPlaintextLength
-//@   ensures [C03.symenc.ok] (key.kty == "oct" && kcSymmetric(algorithm) && !kcKW(algorithm) && kcKeyLenOK(algorithm, len(key.octets)) && len(nonce) == kcNonceLen(algorithm) && (kcCBCNoPad(algorithm) ==> len(plaintext) % 16 == 0)) ==> err == nil
-//@   ensures [C03.symenc.ptlen.kw] (key.kty == "oct" && kcKW(algorithm) && kcKeyLenOK(algorithm, len(key.octets)) && (len(plaintext) < 16 || len(plaintext) % 8 != 0)) ==> err == ErrInvalidPlaintextLength
-//@   ensures [C03.symenc.ok.kwok] (key.kty == "oct" && kcKW(algorithm) && kcKeyLenOK(algorithm, len(key.octets)) && len(plaintext) >= 16 && len(plaintext) % 8 == 0) ==> err == nil
-//@   ensures [C03.symenc.ok.aead] (err == nil && (kcGCM(algorithm) || kcCBCHMAC(algorithm) || kcChaCha(algorithm))) ==> (len(ciphertext) == (kcCBCHMAC(algorithm) ? len(plaintext) + 16 - len(plaintext) % 16 : len(plaintext)) && len(tag) == kcTagLen(algorithm, len(key.octets)))
-//@   ensures [C03.symenc.ok.cbc] (err == nil && (kcCBCPad(algorithm) || kcCBCNoPad(algorithm))) ==> (tag == nil && len(ciphertext) == (kcCBCNoPad(algorithm) ? len(plaintext) : len(plaintext) + 16 - len(plaintext) % 16))
-//@   ensures [C03.symenc.ok.kw] (err == nil && kcKW(algorithm)) ==> (tag == nil && len(ciphertext) == len(plaintext) + 8)
+//@   ensures [C03.dispatch.symenc.kind] key != nil ==> (key.kty != "oct" ==> (err == ErrKeyTypeMismatch && ciphertext == nil && tag == nil))
+//@   ensures [C03.dispatch.symenc.unsupported] key != nil ==> ((key.kty == "oct" && !kcSymmetric(algorithm)) ==> (err == ErrUnsupportedAlgorithm && ciphertext == nil && tag == nil))
+//@   ensures [C03.dispatch.symenc.noout] key != nil ==> (err != nil ==> (ciphertext == nil && tag == nil))
+//@   ensures [C03.dispatch.symenc.fresh] key != nil ==> ((ciphertext == nil || fresh(ciphertext)) && (tag == nil || fresh(tag)))
+//@   ensures [C03.dispatch.symenc.reach] key != nil ==> ((key.kty == "oct" && kcSymmetric(algorithm)) ==> (impl == ((kcCBCPad(algorithm) || kcCBCNoPad(algorithm)) ? 1 : (kcGCM(algorithm) ? 2 : (kcCBCHMAC(algorithm) ? 3 : (kcKW(algorithm) ? 4 : 5)))) && ciphertext == rct && err == rerr))
+//@   ensures [C03.dispatch.symenc.reach.tag] key != nil ==> ((key.kty == "oct" && (kcGCM(algorithm) || kcCBCHMAC(algorithm) || kcChaCha(algorithm))) ==> tag == rtag)
+//@   ensures [C03.symenc.key] key != nil ==> ((key.kty == "oct" && kcSymmetric(algorithm) && !kcKeyLenOK(algorithm, len(key.octets))) ==> err == ErrKeyTypeMismatch)
+//@   ensures [C03.symenc.nonce] key != nil ==> ((key.kty == "oct" && kcSymmetric(algorithm) && !kcKW(algorithm) && kcKeyLenOK(algorithm, len(key.octets)) && len(nonce) != kcNonceLen(algorithm)) ==> err == ErrInvalidNonce)
+//@   ensures [C03.symenc.ptlen] key != nil ==> ((key.kty == "oct" && kcCBCNoPad(algorithm) && kcKeyLenOK(algorithm, len(key.octets)) && len(nonce) == 16 && len(plaintext) % 16 != 0) ==> err == ErrInvalidPlaintextLength)
+//@   ensures [C03.symenc.ok] key != nil ==> ((key.kty == "oct" && kcSymmetric(algorithm) && !kcKW(algorithm) && kcKeyLenOK(algorithm, len(key.octets)) && len(nonce) == kcNonceLen(algorithm) && (kcCBCNoPad(algorithm) ==> len(plaintext) % 16 == 0)) ==> err == nil)
+//@   ensures [C03.symenc.ptlen.kw] key != nil ==> ((key.kty == "oct" && kcKW(algorithm) && kcKeyLenOK(algorithm, len(key.octets)) && (len(plaintext) < 16 || len(plaintext) % 8 != 0)) ==> err == ErrInvalidPlaintextLength)
+//@   ensures [C03.symenc.ok.kwok] key != nil ==> ((key.kty == "oct" && kcKW(algorithm) && kcKeyLenOK(algorithm, len(key.octets)) && len(plaintext) >= 16 && len(plaintext) % 8 == 0) ==> err == nil)
+//@   ensures [C03.symenc.ok.aead] key != nil ==> ((err == nil && (kcGCM(algorithm) || kcCBCHMAC(algorithm) || kcChaCha(algorithm))) ==> (len(ciphertext) == (kcCBCHMAC(algorithm) ? len(plaintext) + 16 - len(plaintext) % 16 : len(plaintext)) && len(tag) == kcTagLen(algorithm, len(key.octets))))
+//@   ensures [C03.symenc.ok.cbc] key != nil ==> ((err == nil && (kcCBCPad(algorithm) || kcCBCNoPad(algorithm))) ==> (tag == nil && len(ciphertext) == (kcCBCNoPad(algorithm) ? len(plaintext) : len(plaintext) + 16 - len(plaintext) % 16)))
+//@   ensures [C03.symenc.ok.kw] key != nil ==> ((err == nil && kcKW(algorithm)) ==> (tag == nil && len(ciphertext) == len(plaintext) + 8))
 //@   at call encryptSymmetricAESCBC#0 ghost impl = 1
 //@   at call encryptSymmetricAESCBC#0 ghost rct = res0
 //@   at call encryptSymmetricAESCBC#0 ghost rerr = res1
@@ -771,21 +776,22 @@ package crypto
 //@   ghost impl int
 //@   ghost rpt slice
 //@   ghost rerr error
-//@   requires key != nil
+// a nil key is reported like any other unusable key (repaired: it used to be a nil dereference); it is the first return
+//@   ensures [C07.decryptsymmetric.nilkey] key == nil ==> (err == ErrKeyTypeMismatch && plaintext == nil)
 //@   modifies nothing
-//@   ensures [C03.dispatch.symdec.kind] key.kty != "oct" ==> (err == ErrKeyTypeMismatch && plaintext == nil)
-//@   ensures [C03.dispatch.symdec.unsupported] (key.kty == "oct" && !kcSymmetric(algorithm)) ==> (err == ErrUnsupportedAlgorithm && plaintext == nil)
-//@   ensures [C03.dispatch.symdec.noout] err != nil ==> plaintext == nil
-//@   ensures [C03.dispatch.symdec.fresh] plaintext == nil || fresh(plaintext)
-//@   ensures [C03.dispatch.symdec.reach] (key.kty == "oct" && kcSymmetric(algorithm)) ==> (impl == ((kcCBCPad(algorithm) || kcCBCNoPad(algorithm)) ? 1 : (kcGCM(algorithm) ? 2 : (kcCBCHMAC(algorithm) ? 3 : (kcKW(algorithm) ? 4 : 5)))) && plaintext == rpt && err == rerr)
-//@   ensures [C03.symdec.key] (key.kty == "oct" && kcSymmetric(algorithm) && !kcKeyLenOK(algorithm, len(key.octets))) ==> err == ErrKeyTypeMismatch
-//@   ensures [C03.symdec.nonce] (key.kty == "oct" && kcSymmetric(algorithm) && !kcKW(algorithm) && kcKeyLenOK(algorithm, len(key.octets)) && len(nonce) != kcNonceLen(algorithm)) ==> err == ErrInvalidNonce
-//@   ensures [C03.symdec.tag] (key.kty == "oct" && (kcGCM(algorithm) || kcCBCHMAC(algorithm) || kcChaCha(algorithm)) && kcKeyLenOK(algorithm, len(key.octets)) && len(nonce) == kcNonceLen(algorithm) && len(tag) != kcTagLen(algorithm, len(key.octets))) ==> err == ErrInvalidTag
-//@   ensures [C03.symdec.ctlen] (key.kty == "oct" && (kcCBCPad(algorithm) || kcCBCNoPad(algorithm)) && kcKeyLenOK(algorithm, len(key.octets)) && len(nonce) == 16 && len(ciphertext) % 16 != 0) ==> err == ErrInvalidCiphertextLength
-//@   ensures [C03.symdec.ctlen.empty] (key.kty == "oct" && kcCBCPad(algorithm) && kcKeyLenOK(algorithm, len(key.octets)) && len(nonce) == 16 && len(ciphertext) == 0) ==> err == ErrInvalidCiphertextLength
-//@   ensures [C03.symdec.ctlen.kw] (key.kty == "oct" && kcKW(algorithm) && kcKeyLenOK(algorithm, len(key.octets)) && (len(ciphertext) < 24 || len(ciphertext) % 8 != 0)) ==> err == ErrInvalidCiphertextLength
-//@   ensures [C03.symdec.ok.len] err == nil ==> ((kcGCM(algorithm) || kcChaCha(algorithm) || kcCBCNoPad(algorithm)) ? len(plaintext) == len(ciphertext) : (kcKW(algorithm) ? len(plaintext) == len(ciphertext) - 8 : ((kcCBCPad(algorithm) || kcCBCHMAC(algorithm)) ==> (len(ciphertext) >= 16 && len(ciphertext) % 16 == 0 && len(ciphertext) - 16 <= len(plaintext) && len(plaintext) < len(ciphertext)))))
-//@   ensures [C03.symdec.ok.nopad] (key.kty == "oct" && kcCBCNoPad(algorithm) && kcKeyLenOK(algorithm, len(key.octets)) && len(nonce) == 16 && len(ciphertext) % 16 == 0) ==> (err == nil && len(plaintext) == len(ciphertext))
+//@   ensures [C03.dispatch.symdec.kind] key != nil ==> (key.kty != "oct" ==> (err == ErrKeyTypeMismatch && plaintext == nil))
+//@   ensures [C03.dispatch.symdec.unsupported] key != nil ==> ((key.kty == "oct" && !kcSymmetric(algorithm)) ==> (err == ErrUnsupportedAlgorithm && plaintext == nil))
+//@   ensures [C03.dispatch.symdec.noout] key != nil ==> (err != nil ==> plaintext == nil)
+//@   ensures [C03.dispatch.symdec.fresh] key != nil ==> (plaintext == nil || fresh(plaintext))
+//@   ensures [C03.dispatch.symdec.reach] key != nil ==> ((key.kty == "oct" && kcSymmetric(algorithm)) ==> (impl == ((kcCBCPad(algorithm) || kcCBCNoPad(algorithm)) ? 1 : (kcGCM(algorithm) ? 2 : (kcCBCHMAC(algorithm) ? 3 : (kcKW(algorithm) ? 4 : 5)))) && plaintext == rpt && err == rerr))
+//@   ensures [C03.symdec.key] key != nil ==> ((key.kty == "oct" && kcSymmetric(algorithm) && !kcKeyLenOK(algorithm, len(key.octets))) ==> err == ErrKeyTypeMismatch)
+//@   ensures [C03.symdec.nonce] key != nil ==> ((key.kty == "oct" && kcSymmetric(algorithm) && !kcKW(algorithm) && kcKeyLenOK(algorithm, len(key.octets)) && len(nonce) != kcNonceLen(algorithm)) ==> err == ErrInvalidNonce)
+//@   ensures [C03.symdec.tag] key != nil ==> ((key.kty == "oct" && (kcGCM(algorithm) || kcCBCHMAC(algorithm) || kcChaCha(algorithm)) && kcKeyLenOK(algorithm, len(key.octets)) && len(nonce) == kcNonceLen(algorithm) && len(tag) != kcTagLen(algorithm, len(key.octets))) ==> err == ErrInvalidTag)
+//@   ensures [C03.symdec.ctlen] key != nil ==> ((key.kty == "oct" && (kcCBCPad(algorithm) || kcCBCNoPad(algorithm)) && kcKeyLenOK(algorithm, len(key.octets)) && len(nonce) == 16 && len(ciphertext) % 16 != 0) ==> err == ErrInvalidCiphertextLength)
+//@   ensures [C03.symdec.ctlen.empty] key != nil ==> ((key.kty == "oct" && kcCBCPad(algorithm) && kcKeyLenOK(algorithm, len(key.octets)) && len(nonce) == 16 && len(ciphertext) == 0) ==> err == ErrInvalidCiphertextLength)
+//@   ensures [C03.symdec.ctlen.kw] key != nil ==> ((key.kty == "oct" && kcKW(algorithm) && kcKeyLenOK(algorithm, len(key.octets)) && (len(ciphertext) < 24 || len(ciphertext) % 8 != 0)) ==> err == ErrInvalidCiphertextLength)
+//@   ensures [C03.symdec.ok.len] key != nil ==> (err == nil ==> ((kcGCM(algorithm) || kcChaCha(algorithm) || kcCBCNoPad(algorithm)) ? len(plaintext) == len(ciphertext) : (kcKW(algorithm) ? len(plaintext) == len(ciphertext) - 8 : ((kcCBCPad(algorithm) || kcCBCHMAC(algorithm)) ==> (len(ciphertext) >= 16 && len(ciphertext) % 16 == 0 && len(ciphertext) - 16 <= len(plaintext) && len(plaintext) < len(ciphertext))))))
+//@   ensures [C03.symdec.ok.nopad] key != nil ==> ((key.kty == "oct" && kcCBCNoPad(algorithm) && kcKeyLenOK(algorithm, len(key.octets)) && len(nonce) == 16 && len(ciphertext) % 16 == 0) ==> (err == nil && len(plaintext) == len(ciphertext)))
 //@   at call decryptSymmetricAESCBC#0 ghost impl = 1
 //@   at call decryptSymmetricAESCBC#0 ghost rpt = res0
 //@   at call decryptSymmetricAESCBC#0 ghost rerr = res1
@@ -815,11 +821,12 @@ package crypto
 //@   ghost rct slice
 //@   ghost rtag slice
 //@   ghost rerr error
-//@   requires key != nil
+// a nil key is reported like any other unusable key (repaired: it used to be a nil dereference); it is the first return
+//@   ensures [C07.encrypt.nilkey] key == nil ==> (err == ErrKeyTypeMismatch && ciphertext == nil && tag == nil)
 //@   modifies nothing
-//@   ensures [C03.dispatch.enc.other] (!kcSymmetric(algorithm) && !kcAsymEnc(algorithm)) ==> (ciphertext == nil && tag == nil && (err == ErrUnsupportedAlgorithm || err == ErrKeyTypeMismatch))
-//@   ensures [C03.dispatch.enc.noout] err != nil ==> (ciphertext == nil && tag == nil)
-//@   ensures [C03.dispatch.enc.fresh] (ciphertext == nil || fresh(ciphertext)) && (tag == nil || fresh(tag))
+//@   ensures [C03.dispatch.enc.other] key != nil ==> ((!kcSymmetric(algorithm) && !kcAsymEnc(algorithm)) ==> (ciphertext == nil && tag == nil && (err == ErrUnsupportedAlgorithm || err == ErrKeyTypeMismatch)))
+//@   ensures [C03.dispatch.enc.noout] key != nil ==> (err != nil ==> (ciphertext == nil && tag == nil))
+//@   ensures [C03.dispatch.enc.fresh] key != nil ==> ((ciphertext == nil || fresh(ciphertext)) && (tag == nil || fresh(tag)))
 //@   at call EncryptSymmetric#0 ghost impl = 1
 //@   at call EncryptSymmetric#0 ghost rct = res0
 //@   at call EncryptSymmetric#0 ghost rtag = res1
@@ -829,10 +836,10 @@ package crypto
 //@   at call EncryptPublicKey#0 ghost rct = res0
 //@   at call EncryptPublicKey#0 ghost rerr = res1
 //@   at call EncryptPublicKey#0 assert [C03.dispatch.enc.asymargs] arg0 == plaintext && arg1 == algorithm && arg2 == key && arg3 == associatedData
-//@   ensures [C03.dispatch.enc.sym] (algorithm == "A128CBC" || algorithm == "A192CBC" || algorithm == "A256CBC" || algorithm == "A128CBC-NOPAD" || algorithm == "A192CBC-NOPAD" || algorithm == "A256CBC-NOPAD" || algorithm == "A128GCM" || algorithm == "A192GCM" || algorithm == "A256GCM" || algorithm == "A128CBC-HS256" || algorithm == "A192CBC-HS384" || algorithm == "A256CBC-HS512" || algorithm == "A128KW" || algorithm == "A192KW" || algorithm == "A256KW" || algorithm == "C20P" || algorithm == "C20PKW" || algorithm == "XC20P" || algorithm == "XC20PKW") ==> impl == 1     // the names of SupportedSymmetricAlgorithms(), spelled out so that the counterexample query keeps them
-//@   ensures [C03.dispatch.enc.asym] kcAsymEnc(algorithm) ==> impl == 2
-//@   at return #0 assert [C03.dispatch.enc.symres] impl == 1 && ciphertext == rct && tag == rtag && err == rerr
-//@   at return #1 assert [C03.dispatch.enc.asymres] impl == 2 && ciphertext == rct && tag == nil && err == rerr
+//@   ensures [C03.dispatch.enc.sym] key != nil ==> ((algorithm == "A128CBC" || algorithm == "A192CBC" || algorithm == "A256CBC" || algorithm == "A128CBC-NOPAD" || algorithm == "A192CBC-NOPAD" || algorithm == "A256CBC-NOPAD" || algorithm == "A128GCM" || algorithm == "A192GCM" || algorithm == "A256GCM" || algorithm == "A128CBC-HS256" || algorithm == "A192CBC-HS384" || algorithm == "A256CBC-HS512" || algorithm == "A128KW" || algorithm == "A192KW" || algorithm == "A256KW" || algorithm == "C20P" || algorithm == "C20PKW" || algorithm == "XC20P" || algorithm == "XC20PKW") ==> impl == 1)   // the names of SupportedSymmetricAlgorithms(), spelled out so that the counterexample query keeps them
+//@   ensures [C03.dispatch.enc.asym] key != nil ==> (kcAsymEnc(algorithm) ==> impl == 2)
+//@   at return #1 assert [C03.dispatch.enc.symres] impl == 1 && ciphertext == rct && tag == rtag && err == rerr
+//@   at return #2 assert [C03.dispatch.enc.asymres] impl == 2 && ciphertext == rct && tag == nil && err == rerr
 //@   replay template dispatch
 //@   replay val decrypt = false
 //@   replay val alen = len(algorithm)
@@ -858,12 +865,13 @@ package crypto
 //@   ghost impl int
 //@   ghost rpt slice
 //@   ghost rerr error
-//@   requires key != nil
+// a nil key is reported like any other unusable key (repaired: it used to be a nil dereference); it is the first return
+//@   ensures [C07.decrypt.nilkey] key == nil ==> (err == ErrKeyTypeMismatch && plaintext == nil)
 //@   modifies nothing
-//@   ensures [C03.dispatch.dec.other] (!kcSymmetric(algorithm) && !kcAsymEnc(algorithm)) ==> (plaintext == nil && (err == ErrUnsupportedAlgorithm || err == ErrKeyTypeMismatch))
-//@   ensures [C03.dispatch.dec.noout] err != nil ==> plaintext == nil
+//@   ensures [C03.dispatch.dec.other] key != nil ==> ((!kcSymmetric(algorithm) && !kcAsymEnc(algorithm)) ==> (plaintext == nil && (err == ErrUnsupportedAlgorithm || err == ErrKeyTypeMismatch)))
+//@   ensures [C03.dispatch.dec.noout] key != nil ==> (err != nil ==> plaintext == nil)
 // C17: a plaintext handed back never shares memory with an argument
-//@   ensures [C17.dispatch.dec.fresh] plaintext == nil || fresh(plaintext)
+//@   ensures [C17.dispatch.dec.fresh] key != nil ==> (plaintext == nil || fresh(plaintext))
 //@   at call DecryptSymmetric#0 ghost impl = 1
 //@   at call DecryptSymmetric#0 ghost rpt = res0
 //@   at call DecryptSymmetric#0 ghost rerr = res1
@@ -872,10 +880,10 @@ package crypto
 //@   at call DecryptPrivateKey#0 ghost rpt = res0
 //@   at call DecryptPrivateKey#0 ghost rerr = res1
 //@   at call DecryptPrivateKey#0 assert [C03.dispatch.dec.asymargs] arg0 == ciphertext && arg1 == algorithm && arg2 == key && arg3 == associatedData
-//@   ensures [C03.dispatch.dec.sym] (algorithm == "A128CBC" || algorithm == "A192CBC" || algorithm == "A256CBC" || algorithm == "A128CBC-NOPAD" || algorithm == "A192CBC-NOPAD" || algorithm == "A256CBC-NOPAD" || algorithm == "A128GCM" || algorithm == "A192GCM" || algorithm == "A256GCM" || algorithm == "A128CBC-HS256" || algorithm == "A192CBC-HS384" || algorithm == "A256CBC-HS512" || algorithm == "A128KW" || algorithm == "A192KW" || algorithm == "A256KW" || algorithm == "C20P" || algorithm == "C20PKW" || algorithm == "XC20P" || algorithm == "XC20PKW") ==> impl == 1     // the names of SupportedSymmetricAlgorithms(), spelled out so that the counterexample query keeps them
-//@   ensures [C03.dispatch.dec.asym] kcAsymEnc(algorithm) ==> impl == 2
-//@   at return #0 assert [C03.dispatch.dec.symres] impl == 1 && plaintext == rpt && err == rerr
-//@   at return #1 assert [C03.dispatch.dec.asymres] impl == 2 && plaintext == rpt && err == rerr
+//@   ensures [C03.dispatch.dec.sym] key != nil ==> ((algorithm == "A128CBC" || algorithm == "A192CBC" || algorithm == "A256CBC" || algorithm == "A128CBC-NOPAD" || algorithm == "A192CBC-NOPAD" || algorithm == "A256CBC-NOPAD" || algorithm == "A128GCM" || algorithm == "A192GCM" || algorithm == "A256GCM" || algorithm == "A128CBC-HS256" || algorithm == "A192CBC-HS384" || algorithm == "A256CBC-HS512" || algorithm == "A128KW" || algorithm == "A192KW" || algorithm == "A256KW" || algorithm == "C20P" || algorithm == "C20PKW" || algorithm == "XC20P" || algorithm == "XC20PKW") ==> impl == 1)   // the names of SupportedSymmetricAlgorithms(), spelled out so that the counterexample query keeps them
+//@   ensures [C03.dispatch.dec.asym] key != nil ==> (kcAsymEnc(algorithm) ==> impl == 2)
+//@   at return #1 assert [C03.dispatch.dec.symres] impl == 1 && plaintext == rpt && err == rerr
+//@   at return #2 assert [C03.dispatch.dec.asymres] impl == 2 && plaintext == rpt && err == rerr
 //@   replay template dispatch
 //@   replay val decrypt = true
 //@   replay val alen = len(algorithm)
@@ -900,14 +908,15 @@ package crypto
 
 //@ func SerializeKey
 //@   tags C07 C17
-//@   requires key != nil
+// a nil key is reported like any other unusable key (repaired: it used to be a nil dereference); it is the first return
+//@   ensures [C07.serializekey.nilkey] key == nil ==> (result1 == ErrKeyTypeMismatch && result == nil)
 //@   modifies nothing
-//@   ensures [C07.serialize.noout] result1 != nil ==> result == nil
+//@   ensures [C07.serialize.noout] key != nil ==> (result1 != nil ==> result == nil)
 // C17: whose memory the result is. No call writes it, but for a symmetric key the bytes handed back ARE the key's own
 // memory (jwx stores and returns its octets slice without copying): a caller that wipes the serialized form wipes the key.
 // Stated so that it is visible; for every other key type the encoding is new memory.
-//@   ensures [C17.serialize.alias] (result1 == nil && key.kty == "oct") ==> result == key.octets
-//@   ensures [C17.serialize.fresh] (result1 == nil && key.kty != "oct") ==> fresh(result)
+//@   ensures [C17.serialize.alias] key != nil ==> ((result1 == nil && key.kty == "oct") ==> result == key.octets)
+//@   ensures [C17.serialize.fresh] key != nil ==> ((result1 == nil && key.kty != "oct") ==> fresh(result))
 
 //@ func parseSymmetricKey
 //@   tags C07 C17
